@@ -207,5 +207,23 @@ META.update({
         technique=TECH),
 })
 
+HOOK_COMMITS.append('8abdf2a verif hook (build tag verif): replace the entity accessor registry content')
+META.update({
+    'C05': dict(
+        text='Theorems Props.C05_ranking, C05_ties, C05_writer, C05_never_406, C05_ows (Coq, no axioms): for every ParseFloat '
+             'oracle, registered-writer set, non-empty Produces list over registered types, default content type and Accept header, '
+             'sortedMimes + EntityWriter answer exactly one type (independent of map iteration order), it is produced and '
+             'registered, it is what the range of greatest q stands for (header order on ties, */* = first Produces entry); a '
+             'request the router admitted is never answered 406; blanks around , ; = and the position of q among the parameters '
+             'do not change a range. Proved on the model of the REPAIRED parser: the check showed on the real code dropped / '
+             'mis-ranked ranges, map-order dependent answers, a nil-logger panic and the default type overriding Produces (fixed: '
+             'F7a, F7b). Tied to /repo by dispatching generated requests 6 times each and requiring the answer to be among the '
+             'extracted model\'s possible answers.',
+        design_ref='DESIGN.md section 6, C05',
+        note='trusted: Coq kernel, extraction+driver, Go harness + verif hook (registry replacement); strconv.ParseFloat oracle; '
+             'differential tie (refinement: implementation answer in model set)',
+        technique=TECH),
+})
+
 ALL = ['C%02d' % i for i in range(1, 20)]
 NOT_APPLICABLE = [dict(property_id=p, reason=PARTIAL_NOT_YET) for p in ALL if p not in META]
